@@ -27,7 +27,7 @@ impl DateRange {
     /// Returns the number of days in the `DateRange`.
     pub fn num_days(&self) -> usize {
         let duration = *self.end_date() - *self.start_date();
-        (duration.num_days() + 1) as usize
+        (duration.num_days() + 1).max(0) as usize
     }
 
     /// Partitions the date range into a [`Vec`] of count date ranges.
